@@ -56,6 +56,12 @@ fn check(case: &Case, obs: &mut Obs) -> CheckResult {
     if s.ended_idle {
         obs.label("worker-exited-idle");
     }
+    if s.hot_loop {
+        obs.label("refetch-hot-loop(min_delay=0)");
+    }
+    if s.budget_exhausted {
+        obs.label("tick-budget-exhausted");
+    }
     if s.fetches >= 5 {
         obs.label("fetches>=5");
     }
@@ -164,6 +170,8 @@ fn alphabet() -> Vec<Op> {
     let ps = |route: u8, life: i32| PathSpec { route, life: Life::Rel(life), exp_unit: 1, min_seg: 0, meta: Meta::Full, meta_exp_skew: 0 };
     vec![
         Op::Fetch(FetchSpec::Paths(vec![ps(0, 7)])),
+        // a fetcher that keeps serving the same instance: maintenance lands exactly on its expiry
+        Op::Fetch(FetchSpec::Paths(vec![PathSpec { life: Life::Abs(5), ..ps(9, 0) }])),
         Op::Fetch(FetchSpec::Paths(vec![ps(2, 4), ps(6, 400), ps(0, 0)])),
         Op::Fetch(FetchSpec::Error),
         Op::Advance(Adv::NextMaintain(0)),
@@ -229,7 +237,7 @@ fn main() {
     ];
     vcore::main(
         "C06",
-        "case = (manager configuration, history). Configurations: max cached {0 rare,1,2,5,50}; expiry threshold {5,30,300 s}; min refetch delay {0, 1 s, thr/2, thr (equality corner), thr+1ms (invalid)}; refetch interval {== min delay (equality corner), 100 s, 30 min, min delay-1 (invalid)}; six backoff triples with jitter 0; issue cache {1,2,8}; dedup window {0,10 s}; invalid configurations must be rejected. Ops as in C05 plus IssueRepeat(n up to 10^4, spacing 0/1ms/window-1/window/window+1/2*window+7/60 s) and constructed 'starvation' prefixes (short-lived active path, then the control service errs / finds nothing so that backoff or min delay carries the next tick past the expiry). maintain() runs at every instant next_maintain() names. Invariants: (1) at every Send the path in the active slot (what cached_path / path_wait clone) has hop-field expiry (decoded from the raw bytes by refmodel) > now, and the three read APIs agree; (2) right after a maintenance instant with a fetch, if a policy-conform unexpired path was delivered by this fetch - or retained from earlier ones when no truncation can have happened - the slot is not empty; (3) cached <= max_cached_paths_per_pair; (4) issue cache <= issue_cache_size and its FIFO <= 4*size+4; (5) after a fetch at t: t+min_refetch_delay <= next_refetch; failed: <= t+max(backoff max, min delay); successful: <= t+refetch_interval; failed_attempts counts the consecutive failures; (6) no panic / debug assertion anywhere. Exhaustive: all histories of length <= 4 (thorough 5) over a 9-op boundary-time alphabet x 2 configurations. Non-trivial = time crossed the active path's expiry, or >= 3 consecutive fetch failures, or >= 2*issue_cache_size issue reports.",
+        "case = (manager configuration, history). Configurations: max cached {0 rare,1,2,5,50}; expiry threshold {5,30,300 s}; min refetch delay {0, 1 s, thr/2, thr (equality corner), thr+1ms (invalid)}; refetch interval {== min delay (equality corner), 100 s, 30 min, min delay-1 (invalid)}; six backoff triples with jitter 0; issue cache {1,2,8}; dedup window {0,10 s}; invalid configurations must be rejected. Ops as in C05 plus IssueRepeat(n up to 10^4, spacing 0/1ms/window-1/window/window+1/2*window+7/60 s) and constructed 'starvation' prefixes (short-lived active path, then the control service errs / finds nothing so that backoff or min delay carries the next tick past the expiry). maintain() runs at every instant next_maintain() names. Invariants: (1) at every Send the path in the active slot (what cached_path / path_wait clone) has hop-field expiry (decoded from the raw bytes by refmodel) > now, and the three read APIs agree; (2) right after a maintenance instant with a fetch, if a policy-conform unexpired path was delivered by this fetch - or retained from earlier ones when no truncation can have happened - the slot is not empty; (3) cached <= max_cached_paths_per_pair; (4) issue cache <= issue_cache_size and its FIFO <= 4*size+4; (5) after a fetch at t: t+min_refetch_delay <= next_refetch; failed: <= t+max(backoff max, min delay); successful: <= t+refetch_interval; failed_attempts counts the consecutive failures; (6) no panic / debug assertion anywhere. Exhaustive: all histories of length <= 4 (thorough 5) over a 10-op boundary-time alphabet x 2 configurations. Non-trivial = time crossed the active path's expiry, or >= 3 consecutive fetch failures, or >= 2*issue_cache_size issue reports.",
         &[
             "maintenance runs exactly at the instants next_maintain() names (the real task runs it at or after them, which only widens the windows reported)",
             "backoff jitter is 0 so that schedules are exact; backoff parameters are positive with max >= min and factor >= 1 (there is no public setter and no validation for them)",
